@@ -60,8 +60,8 @@ def exit_ops_from_adt(F):
             if n.startswith("Return") or n.startswith("Throw") or n == "Rethrow" or n.startswith("ResumeThrow") or n == "Unreachable"}
 
 
-def block_tables(F):
-    r = RuleResult("R-BLOCK-TABLES",
+def block_tables(F, openers_clause=True):
+    r = RuleResult("R-BLOCK-TABLES" if openers_clause else "R-BLOCK-TABLES(accept=resolve)",
                    "the structured-control tables agree: every block opener of the Operator ADT is pushed on block_stack by resolve_special_instrumentation; {Block,Loop,If,Else} is the same set in is_block_style_op, resolve_block_entry, plan_resolution_block_exit, plan_resolution_block_alt and plan_resolution_semantic_after; the Br* set is the same in is_branching_op and plan_resolution_semantic_after and ⊇ create_bool_flag's conditional subset; resolve_function_exit covers every return/throw/trap operator")
     rs = F.one_fn(name="resolve_special_instrumentation", self_adt="Module")
     r.analysed.append(rs["path"])
@@ -82,7 +82,7 @@ def block_tables(F):
                     popping |= ops
     if driver is None:
         raise CheckError("resolve_special_instrumentation: no arm pushes block_stack")
-    for o in sorted(openers):
+    for o in sorted(openers if openers_clause else ()):
         ok = o in pushed
         r.ob(ok, {"opener": o, "pushed": ok})
         if not ok:
